@@ -54,6 +54,7 @@ def check(ctx):
          'to static analysis (see DESIGN.md section C12)'])
     model = Model(ctx)
     _armijo(rep, model)
+    _armijo_inf(rep, model)
     _steepest(rep, model)
     _stepsizes(rep, model)
     _saved_iterates(ctx, rep)
@@ -165,6 +166,88 @@ def _armijo(rep, model):
                   'steps, both signs of the derivative) are guarded by the '
                   'Armijo test at the returned alpha; %d paths raise'
                   % (n_ret, MAXIT, n_raise))
+
+
+def _armijo_inf(rep, model):
+    """R1b: a trial point where the objective is +inf (outside the domain of
+    a constrained objective, documented as supported) is rejected like any
+    other insufficient decrease -- the search backtracks, it does not
+    abort."""
+    ci = model.get('BacktrackingLineSearch')
+    call = ci.methods.get('__call__')
+    cons = 'BacktrackingLineSearch.__call__[f = +inf at the first trial]'
+    INF = Opaque('np.inf')
+
+    class IH(LSHooks):
+        def __init__(self):
+            LSHooks.__init__(self)
+            self.ncalls = 0
+
+        def on_call(self, interp, f, args, kwargs, node):
+            if isinstance(f, OpV) and f.functional and len(args) == 1:
+                self.ncalls += 1
+                if self.ncalls == 2:
+                    return INF
+            return LSHooks.on_call(self, interp, f, args, kwargs, node)
+
+        def on_getattr(self, interp, obj, name):
+            from ..symex import NPV, Builtin
+            if obj is NPV and name in ('isnan', 'isfinite', 'isinf'):
+                def test(v, name=name):
+                    inf = v is INF
+                    return {'isnan': False, 'isfinite': not inf,
+                            'isinf': inf}[name]
+                return Builtin('np.' + name, test)
+            return LSHooks.on_getattr(self, interp, obj, name)
+
+    class II(Interp):
+        def cmp1(self, op, l, r, node):
+            # +inf compared with a finite expression
+            if l is INF and isinstance(op, (ast.Lt, ast.LtE)):
+                return False
+            if l is INF and isinstance(op, (ast.Gt, ast.GtE)):
+                return True
+            if r is INF and isinstance(op, (ast.Lt, ast.LtE)):
+                return True
+            if r is INF and isinstance(op, (ast.Gt, ast.GtE)):
+                return False
+            return Interp.cmp1(self, op, l, r, node)
+
+    def once(assume):
+        hooks = IH()
+        I = II(model, assume, hooks)
+        e = Env(I, hooks)
+        f = e.fun('f', e.X)
+        I.real_scalars.update({'dd', 'discount', 'tau0'})
+        ls = I.instantiate(ci, [f], {'tau': Rat.var('tau0'),
+                                     'discount': Rat.var('discount'),
+                                     'max_num_iter': 3})
+        x = e.vec('x', e.X)
+        d = e.vec('d', e.X)
+        try:
+            alpha = I.call(ls, [x, d, Rat.var('dd')], {})
+        except PyRaise as ex:
+            return {'raise': ex.name, 'dec': list(hooks.decisions),
+                    'ncalls': hooks.ncalls}
+        return {'alpha': to_rat(alpha), 'dec': list(hooks.decisions),
+                'ncalls': hooks.ncalls}
+    try:
+        leaves = explore(once, limit=200)
+    except Undecided as e:
+        rep.undecided('R1', cons, str(e), ci.rel, call.lineno)
+        return
+    rets = [r for a, r in leaves if 'alpha' in r]
+    early = [r for a, r in leaves if 'raise' in r and r['ncalls'] <= 2]
+    if early:
+        rep.violation('R1', 'BacktrackingLineSearch.__call__', 'a trial '
+                      'value of +inf aborts the search with %s instead of '
+                      'being rejected by the decrease test (backtracking)'
+                      % early[0]['raise'], ci.rel, call.lineno)
+    elif not rets:
+        rep.undecided('R1', cons, 'no returning path', ci.rel, call.lineno)
+    else:
+        rep.holds('R1', cons, 'rejected by the decrease test; %d returning '
+                  'paths after further backtracking' % len(rets))
 
 
 def _steepest(rep, model):
